@@ -128,10 +128,13 @@ def plan(tier):
             cfgs.append(("tp=%s,part=%s" % (tp, part), 0))
     if not q:
         for tp in TPS:
-            for part in ("full", "x1", "x2"):
-                cfgs.append(("tp=%s,part=%s" % (tp, part), 0))
-        for tp in TPS:
             cfgs.append(("tp=%s,part=cover,menu=0x%x" % (tp, DEFAULT_MENU), 1))
+        for tp in TPS:
+            for part in ("x2", "x1"):
+                cfgs.append(("tp=%s,part=%s" % (tp, part), 0))
+        cfgs.append(("tp=tls,part=trustdeep", 0))
+        for tp in TPS:
+            cfgs.append(("tp=%s,part=full" % tp, 0))
     return cfgs
 
 
@@ -145,7 +148,7 @@ def run(chk, tier, jobs, deadline):
     ensure_pki()
     nkinds = verify_pki(chk)
     exe = harnesses.build_explorer_harness("h_tls")
-    dl = deadline or (600 if tier == "quick" else 3300)
+    dl = deadline or (420 if tier == "quick" else 2700)
     t_end = time.time() + dl
     tot = dict(executions=0, states=0, transitions=0, outcomes=0, points=0)
     counters = [0] * 24
